@@ -155,7 +155,8 @@ func ordUniverse(thorough bool) []ordSig {
 		}
 	}
 	// deep stacks: 33 and 40 frames of one class, alone and with one frame of another class
-	for _, n := range []int{33, 40} {
+	// (100 frames is the longest traceback the runtime prints before eliding)
+	for _, n := range []int{33, 40, 100} {
 		for _, cl := range []int{clStdlib, clGoMod, clUnknown} {
 			deep := make([]int, n)
 			for i := range deep {
@@ -326,6 +327,14 @@ func TestVerifC13(t *testing.T) {
 			}
 			s.Goroutines[firstPos].First = true
 			a, p := safeAggregate(s, AnyPointer)
+			if p == "" && a != nil && len(a.Buckets) > 1 {
+				// the caller may reorder what it was given; a second aggregation of the same
+				// snapshot at the same level is judged instead of the first
+				for i, j := 0, len(a.Buckets)-1; i < j; i, j = i+1, j-1 {
+					a.Buckets[i], a.Buckets[j] = a.Buckets[j], a.Buckets[i]
+				}
+				a, p = safeAggregate(s, AnyPointer)
+			}
 			mk := func(fp, msg string) *h.Viol {
 				return &h.Viol{Fingerprint: "C13/" + fp, Summary: msg, Key: key, Kind: "e2e", Observed: describeBuckets(a), Extra: map[string]any{"signatures": func() []string {
 					var o []string
